@@ -60,6 +60,8 @@ var c10Zones = []*time.Location{
 	time.FixedZone("", 5400),   // half-hour offset
 	time.FixedZone("x", -27000), // odd name, -07:30
 	time.FixedZone("", -43200),
+	time.FixedZone("LMT", 3464), // local mean time zones carry seconds: what time.LoadLocation yields for 19th-century dates (+00:57:44)
+	time.FixedZone("", -1172),   // -00:19:32
 }
 
 // event builds the stored event; seq makes every appended event unique ({"n":seq,"v":<generated document>}),
